@@ -322,7 +322,7 @@ def run(res, f, tier):
     ctx_call = A["ctx_call"]
     ctx_adt = f.adts.get(A["ctx_type"].split("<")[0])
     cache_fields = [fl["name"] for fl in (ctx_adt["variants"][0]["fields"] if ctx_adt else []) if re.sub(r"'\w+ ", "", fl["ty_s"]) in (CACHE_REF_OF(f, uf_call), CACHE_REF_OF(f, uf_call)[5:])]
-    route = [ctx_call] + ([rs_call] if rs_call else []) + [uf_call]
+    route = list(A["call_route"])
     for caller, callee in zip(route, route[1:]):
         b_ = f.bodies[caller]
         argn = []
